@@ -287,12 +287,18 @@ func (c *RollingFileAppender) isRotatedFile(name string) bool {
 // clearExpiredFiles removes log files older than MaxAge.
 func (c *RollingFileAppender) clearExpiredFiles() {
 	expiration := time.Now().Add(-time.Duration(c.MaxAge) * time.Hour)
+	// The file currently being written is never removed, whatever its age
+	// (a maximum age of zero makes every rotated file count as expired).
+	var current string
+	if file := c.file.Load(); file != nil {
+		current = filepath.Base(file.Name())
+	}
 	entries, _ := os.ReadDir(c.FileDir)
 	for _, entry := range entries {
 		if entry.IsDir() {
 			continue
 		}
-		if !c.isRotatedFile(entry.Name()) {
+		if !c.isRotatedFile(entry.Name()) || entry.Name() == current {
 			continue
 		}
 		info, err := entry.Info()
